@@ -9,7 +9,7 @@ META = dict(
     note='Universe: 6 paths incl. d vs d/x, 2 contents, 7 ignore files (single-component patterns incl. negation, dir-only, anchored, *), 3-term conflicts; bounded behaviours (10-12 actions). "Already tracked" is read as "in the working-copy tree". Three debug-assertion panics of the jj snapshot reached by the model are known findings (see known-findings.txt). Trusted: TLC, the projection code in harness/jjconf/src/bin/wc/script.rs.',
     design='4 C23',
 )
-READY = False
+READY = True
 LEVEL = META["category"]
 
 
@@ -19,6 +19,7 @@ def run(ctx):
         mc_cfgs=[ctx.q("c23", "c23_thorough")],
         neg_cfgs=[("neg_snap_ignore_tracked", "Inv_C23"), ("neg_snap_no_dir_delete", "Inv_C23"),
                   ("neg_snap_skip_ignored_dir", "Inv_C23"), ("finding_stale_state", "Inv_C23"),
-                  ("finding_dir_conflict", "Inv_C23"), ("finding_tracked_dir", "Inv_C23")],
-        gen_cfgs=[("gen_c23", ctx.q(300, 2400))],
-        n_random=ctx.q(300, 4000), focus="snapshot")
+                  ("finding_dir_conflict", "Inv_C23"), ("finding_tracked_dir", "Inv_C23"),
+                  ("finding_stale_ignored", "Inv_C23")],
+        gen_cfgs=[("gen_c23", ctx.q(300, 1000))],
+        n_random=ctx.q(300, 2000), focus="snapshot")
